@@ -298,6 +298,75 @@ claim('C17',
       'constraint domain, path splitting without solver)',
       'DESIGN.md section 4 C17, Appendix A.2/A.3')
 
+claim('C03',
+      'Round-trip equality is a runtime quantity; decided instead, for all '
+      'byte values at once: writer and reader of every .p8 section are the '
+      'same codec read in two directions. Both directions are extracted '
+      'independently by abstract interpretation as maps between memory bits '
+      'and hex-digit positions and must be mutual inverses (gfx nibbles, sfx '
+      'header and 5-digit notes, music flags/channels; exactly one bit, bit '
+      '7 of music channel 3, is not carried); produced line lengths equal '
+      'the readers\' filter constants; section names/classes agree; header '
+      'and version lines; label and final-newline logic.',
+      'Decided: codec agreement, line-length agreement, section dispatch '
+      'agreement, text-section plumbing. Not decided: equality of the '
+      're-read cart and byte-identity of a rewrite for concrete carts '
+      '(follow from the rules modulo bytes.fromhex/format and C06/C15); '
+      'carts with non-canonical region sizes.',
+      'static analysis: abstract interpretation to bit/hex-digit layout '
+      'maps, map inversion check, constant evaluation, regex-automaton '
+      'membership',
+      'DESIGN.md section 4 C03')
+claim('C04',
+      'Decides the .p8.png codec structurally for all carts: steganographic '
+      'writer and reader bit maps (extracted independently) are inverse and '
+      'keep the upper six bits; the reader\'s slice bounds equal the prefix '
+      'sums of the writer\'s region order; the `:c:` header written is the '
+      'header consumed; a raising size test dominates the code-area store; '
+      'kind inference shows the raw branch receives bytes; the label is '
+      'opened read-only before any output.',
+      'Decided: the necessary conditions above. Not decided: that the file '
+      'is a valid PNG (pypng), CR/trailing-newline normalisation equalities, '
+      '.p8 -> .p8.png -> .p8 for concrete carts, the _update60 suffix.',
+      'static analysis: bit-provenance abstract interpretation, constant '
+      'evaluation of the memory layout, CFG dominance of a raising guard, '
+      'kind (bytes/str) inference at call sites',
+      'DESIGN.md section 4 C04')
+claim('C05',
+      'Decides the compression codec as arithmetic: encoder and decoder item '
+      'formulas are normalised to linear forms with evaluated constants and '
+      'must agree with each other and with the format (radix, biases, mask, '
+      'shift, table, branch partition); guard shapes of the match search '
+      'give, by interval arithmetic on evaluated constants, 3 <= length <= '
+      '17, 1 <= offset <= min(pos, 3120), bytes in range, no overlap; the '
+      'decoder must copy back-references element-wise (correct for '
+      'overlapping references).',
+      'Decided: format agreement, well-formedness bounds from guard shapes, '
+      'decoder copy discipline. NOT decided: decompress(compress(s)) == s as '
+      'such (composition on paper: the greedy search yields SOME valid '
+      'parse); the _update60 compatibility suffix surgery (value-dependent). '
+      'The search-loop rule recognises the loop by shape: a rewritten search '
+      'yields exit 2.',
+      'static analysis: linear-form normalisation with constant evaluation, '
+      'guard-shape recognition + interval arithmetic, idiom check of the '
+      'copy loop',
+      'DESIGN.md section 4 C05')
+claim('C16',
+      'Each codec direction (gfx, gff/map, sfx lines and note accessors, '
+      'music, PNG steganography, memory order, :c: constants) is extracted '
+      'by abstract interpretation and compared with the format description '
+      'in refs/formats.py -- not with its sibling. Because every codec is a '
+      'fixed selection/permutation of bits, layout equality is behaviour '
+      'equality for all 2^n values; a writer and reader sharing a mistake '
+      'round-trip perfectly and are still reported.',
+      'Decided: layout == reference for every codec direction. Trusted: '
+      'refs/formats.py (written from the public format description), '
+      'bytes.fromhex / format / pypng semantics. Not decided: carts with '
+      'truncated sections.',
+      'static analysis: bit-provenance abstract interpretation of each codec '
+      'side vs a reference layout table',
+      'DESIGN.md section 4 C16')
+
 
 def main():
     props = []
